@@ -122,6 +122,12 @@ def fix_frames(seed):
         r, o = rec.fix(filt={"names": ["K"]}); d.append("fix -f K -> %s" % o["exit"])
         r, o = rec.fix(filt={"disks": [], "plevels": [1]}); d.append("fix -d parity -> %s" % o["exit"])
         r, o = rec.check(); d.append("check -> %s" % o["exit"])
+        again()
+        # 6. whole-path patterns with wildcards: * does not cross a slash (/* names the files at the top of a disk only)
+        a.remove(1, "C"); a.remove(1, "sub/F"); a.corrupt_block(0, "B", 0, "flip"); rec.env("lose C and sub/F, corrupt B[0]", damage=True)
+        r, o = rec.fix(filt={"names": ["/*"]}); d.append("lose C, sub/F, corrupt B; fix -f '/*' -> %s" % o["exit"])
+        r, o = rec.fix(filt={"names": ["/s*/F"]}); d.append("fix -f '/s*/F' -> %s" % o["exit"])
+        r, o = rec.check(filt={"names": ["/*"]}); d.append("check -f '/*' -> %s" % o["exit"])
     finally:
         snap.destroy()
         a.destroy()
@@ -317,6 +323,60 @@ def s2_zeroed_bad_chg(seed):
     r, o = rec.sync("-S", "0", "-B", "1"); d.append("sync -S 0 -B 1 (N recorded, its stripes not reached) -> %s" % o["exit"])
     a.remove(0, "N"); a.remove(1, "C"); rec.env("lose N and C", damage=True); d.append("lose N and C")
     r, o = rec.fix(); d.append("fix -> %s" % o["exit"])
+    r, o = rec.check(); d.append("check -> %s" % o["exit"])
+    a.destroy()
+    return rec, d
+
+
+def touched_then_rotten(seed):
+    """C04 with every depth of the I/O ring: a file whose time stamp changed since the sync (differences there are expected) is
+    followed, on the same disk and on other disks, by synced files with silently rotted blocks: each of those is reported and
+    its stripe marked, whatever the ring depth (the ring slots that served the touched file are used again for later stripes)"""
+    import random
+    rng = random.Random(seed)
+    a = arr.Array(arr.Conf(nd=2, np=1, copies=2), seed=seed)
+    a.write_file(0, "A", [1, 2, 3], mtime=11)
+    a.write_file(0, "B", [4, 5, 6, 7], mtime=12)
+    a.write_file(1, "C", [8, 9, 10, 11, 12, 13, 14], mtime=13)
+    rec = recorder.Recorder(a)
+    d = ["init A B / C"]
+    r, o = rec.sync(); d.append("sync -> %s" % o["exit"])
+    for cache in rng.sample([1, 3, 4, 8, 128], 3):
+        a.set_mtime(0, "A", 40 + cache); rec.env("touch A"); d.append("touch A")
+        i = rng.randrange(4); j = rng.randrange(0, 3)          # B[i] is at stripe 3+i, C[j] at stripe j (next to the touched A)
+        a.corrupt_block(0, "B", i, "flip"); a.corrupt_block(1, "C", j, "byte")
+        rec.env("corrupt B[%d] and C[%d]" % (i, j), damage=True); d.append("corrupt B[%d] C[%d]" % (i, j))
+        a.clock += 10
+        r, o = rec.scrub("full", "--test-io-cache", str(cache)); d.append("scrub --test-io-cache %d -> %s" % (cache, o["exit"]))
+        r, o = rec.check("--test-io-cache", str(cache)); d.append("check -> %s" % o["exit"])
+        r, o = rec.fix(filt={"bad": "file"}); d.append("fix -e -> %s" % o["exit"])
+        r, o = rec.scrub("bad", "--test-io-cache", str(cache)); d.append("scrub -p bad -> %s" % o["exit"])
+        a.clock += 10
+        r, o = rec.sync("--test-io-cache", str(cache)); d.append("sync -> %s" % o["exit"])
+    a.destroy()
+    return rec, d
+
+
+def rep_block_corruption(seed):
+    """C05 / C19: a copy (cp -p to another disk) is recorded with provisional hashes (REP) by a sync that reaches only its first
+    stripe; a block of the copy then rots silently: fix must notice it (the provisional hash is the hash of the original) and
+    bring the right bytes back from the original"""
+    import os, shutil
+    a = arr.Array(arr.Conf(nd=2, np=1, copies=2), seed=seed)
+    a.write_file(0, "A", [1, 2, 3], mtime=11)
+    a.write_file(1, "K", [4], mtime=12)
+    rec = recorder.Recorder(a)
+    d = ["init A / K"]
+    r, o = rec.sync(); d.append("sync -> %s" % o["exit"])
+    shutil.copy2(a.path(0, "A"), a.path(1, "A")); rec.env("cp -p 0/A 1/A"); d.append("cp -p 0/A 1/A")
+    a.clock += 10
+    r, o = rec.sync("-B", "2"); d.append("sync -B 2 -> %s" % o["exit"])
+    a.corrupt_block(1, "A", 2, "flip"); rec.env("corrupt 1/A[2] (a block with a provisional hash)", damage=True); d.append("corrupt 1/A[2]")
+    r, o = rec.check(); d.append("check -> %s" % o["exit"])
+    r, o = rec.fix(); d.append("fix -> %s" % o["exit"])
+    r, o = rec.check(); d.append("check -> %s" % o["exit"])
+    a.clock += 10
+    r, o = rec.sync(); d.append("sync -> %s" % o["exit"])
     r, o = rec.check(); d.append("check -> %s" % o["exit"])
     a.destroy()
     return rec, d
